@@ -160,6 +160,16 @@ func (e *panicEngine) sinks() []sink {
 				if _, isStr := v.X.Type().Underlying().(*types.Basic); isStr && tainted(v.Index) {
 					out = append(out, sink{ins, v.Index, "index", []string{"ge0", "ltlen:" + exprKey(v.X)}, "string index must be within [0, len)"})
 				}
+				// m[k] on a Go map keyed by an interface type hashes the dynamic
+				// value of k: a slice-typed value (styled text, a pipeline
+				// error) panics with "hash of unhashable type"
+				if mt, isMap := v.X.Type().Underlying().(*types.Map); isMap && isEmptyIface(mt.Key()) && tainted(v.Index) && !fromConcrete(v.Index) && !recoversPanic(v.Parent()) {
+					out = append(out, sink{ins, v.Index, "mapkey", []string{"never"}, "a script-controlled value is used as the key of a Go map keyed by an interface type: an unhashable dynamic type (a styled text is a slice) panics with 'hash of unhashable type'"})
+				}
+			case *ssa.MapUpdate:
+				if mt, isMap := v.Map.Type().Underlying().(*types.Map); isMap && isEmptyIface(mt.Key()) && tainted(v.Key) && !fromConcrete(v.Key) && !recoversPanic(v.Parent()) {
+					out = append(out, sink{ins, v.Key, "mapkey", []string{"never"}, "a script-controlled value is used as the key of a Go map keyed by an interface type: an unhashable dynamic type (a styled text is a slice) panics with 'hash of unhashable type'"})
+				}
 			case *ssa.Slice:
 				for _, x := range []ssa.Value{v.Low, v.High, v.Max} {
 					if x != nil && tainted(x) {
